@@ -70,12 +70,10 @@ def concretize(ops, rng):
     return out
 
 
-def run(tier):
-    vd = common.Verdict(PID, tier)
-    wd = common.scratch(PID)
-    rng = random.Random(common.seed())
-    bdir = common.build("plain")
-    drv = os.path.join(bdir, "bin", "zwdrv")
+def locations(vd, drv, wd, rng, tier):
+    """The location part: expressions of tla/Loc.tla (menu pairs and the whole operand table) in every form and
+    version, compared operation by operation.  Shared with C07, whose statement covers the operands of location
+    attributes as well.  Returns the abbreviation reference lists of the same TLC run."""
     out = os.path.join(wd, "loc.ndjson")
     r = tlc.run_tlc("LocGen", constants={"OutFile": out, "MutSeen": "none"}, workers=1, timeout=900)
     if not r.ok or not os.path.exists(out):
@@ -85,7 +83,7 @@ def run(tier):
     vecs = [json.loads(l) for l in open(out) if l.strip()]
     exprs = [v for v in vecs if v["kind"] in ("expr", "sweep")]
     refs = [v for v in vecs if v["kind"] == "abbrev"]
-    vd.cov["states"] = len(vecs); vd.cov["transitions"] = len(vecs)
+    vd.cov["states"] += len(vecs); vd.cov["transitions"] += len(vecs)
     # ---- locations: every expression as exprloc (v4, v5), block1 (v3) and inside a two/three-range location list (v3)
     units, plan = [], []          # plan: die id -> list of (lo, hi, concretized ops)
     nid = [10]
@@ -178,6 +176,18 @@ def run(tier):
             if len(g[1]["v"]) != want or len(g[2]["v"]) != wantneg:
                 vd.observe(key + ": ?OP_x / !OP_x", {"expected": [want, wantneg], "observed": [len(g[1]["v"]), len(g[2]["v"])]}); ok = False
         nok += 1 if ok else 0
+    vd.cov["distinct_nontrivial"] += nok
+    vd.cov["traces_validated_against_impl"] += nok
+    return refs, exprs
+
+
+def run(tier):
+    vd = common.Verdict(PID, tier)
+    wd = common.scratch(PID)
+    rng = random.Random(common.seed())
+    bdir = common.build("plain")
+    drv = os.path.join(bdir, "bin", "zwdrv")
+    refs, exprs = locations(vd, drv, wd, rng, tier)
     # ---- abbreviations: tables shared between units in every reference order; every DIE's abbreviation
     nab = 0
     for vi, v in enumerate(refs):
@@ -254,8 +264,8 @@ def run(tier):
             vd.cov["evaluations"] += 1
             if not rr or rr.get("status") != "ok" or len(rr["results"]) != 0 or rr.get("soft", 0):
                 vd.observe("sample %s: law `%s'" % (os.path.basename(s), name), {"query": q_, "observed": rr})
-    vd.cov["distinct_nontrivial"] = nok + nab
-    vd.cov["traces_validated_against_impl"] = nok + nab
+    vd.cov["distinct_nontrivial"] += nab
+    vd.cov["traces_validated_against_impl"] += nab
     vd.sample({"expression": exprs[7]["ops"]}); vd.sample({"table_references": refs[9]["refs"]})
     return vd.finish(rule="tla/Loc.tla: expressions of one or two operations over one opcode per operand class (none, unsigned, signed, "
                      "address, unsigned+signed, two unsigned, block, nested expression) with the value table of locexpr_op_values and "
